@@ -6,22 +6,42 @@ ENGINE = "split"
 RULE = ("triples (D1, X, D2): D1, D2 grammar documents (D1 ending in a complete block, D2 starting with '@type{' at a line start, "
         "disjoint key pools), X = every token sequence up to length 3 (quick) / 4 (thorough) over the splitter alphabet, random longer "
         "ones, and truncations/corruptions of valid blocks; checked: parse(D1+X+'\\n'+D2) starts with parse(D1) and ends with parse(D2) "
-        "shifted; concatenations D1+D2. distinct = distinct (D1, X, D2); non-trivial = X is non-empty and not whitespace")
+        "shifted; concatenations D1+D2. Half of the D1 / D2 documents are syntactically well-formed documents whose entries repeat "
+        "field names (DuplicateFieldKeyBlock) or entry / string keys (DuplicateBlockKeyBlock). Blocks are compared on everything "
+        "public: class, raw, start line, type, key, fields with their lines, and for failed blocks the error class and text, "
+        "duplicate_keys, key, ignore_error_block and previous_block (each taken as it is when parse returns). "
+        "distinct = distinct (D1, X, D2); non-trivial = X is non-empty and not whitespace")
 TRUSTED = ["the decomposition into D1 / X / D2 is the generator's"]
 ASSUMPTIONS = []
 CASE_TIMEOUT_S = 60
 
 
-def _docs(rng, n, prefix):
+def _repeats(it):
+    names = [f[0] for f in it.get("fields", [])]
+    return len(set(names)) != len(names)
+
+
+def _docs(rng, n, prefix, dup=False):
+    """dup: syntactically well-formed documents in which entries repeat field names (-> DuplicateFieldKeyBlock) and blocks may
+    repeat entry / string keys (-> DuplicateBlockKeyBlock); every second one ends in an entry with a repeated field name."""
     out = []
     while len(out) < n:
         pool = ["%s%d" % (prefix, i) for i in range(40)]
         rng.shuffle(pool)
-        text, items = G.gen_doc(rng, max_items=4, depth=2, entry_keys=pool[:20], string_keys=pool[20:],
-                                kinds=["entry", "entry", "string", "preamble", "comment"])
-        # unique keys inside the document
-        if not items or not SC.doc_is_nodup(items):
-            continue
+        if dup:
+            text, items = G.gen_doc(rng, max_items=4, depth=2, entry_keys=pool[:6], string_keys=pool[20:23],
+                                    field_names=["a", "A", "title", "ID", "1/"],
+                                    kinds=["entry", "entry", "entry", "string", "preamble", "comment"])
+            if not items or not any(_repeats(it) for it in items):
+                continue
+            if len(out) % 2 == 0 and not _repeats(items[-1]):
+                continue
+        else:
+            text, items = G.gen_doc(rng, max_items=4, depth=2, entry_keys=pool[:20], string_keys=pool[20:],
+                                    kinds=["entry", "entry", "string", "preamble", "comment"])
+            # unique keys inside the document
+            if not items or not SC.doc_is_nodup(items):
+                continue
         first = items[0]["raw"]
         last = items[-1]["raw"]
         body = text[text.index(first): text.rindex(last) + len(last)]       # starts with '@', ends in the closing brace
@@ -34,6 +54,9 @@ def generate(rng, tier):
     d2s = _docs(rng, 6, "Q")
     # well-formed suffixes whose first block has a type with non-ASCII word characters
     d2s += ["@%s%s{Qe%d, a = {b}}\n%s" % (t, rng.choice(G.HWS), i, rng.choice(d2s[:6])) for i, t in enumerate(G.EDGE_TYPES)]
+    # well-formed documents with repeated field names / repeated block keys (appended last: the draws above stay as they were)
+    d1s += _docs(rng, 6, "P", dup=True)
+    d2s += _docs(rng, 6, "Q", dup=True)
     cases = []
     maxlen = 3 if tier == "quick" else 4
     xs = list(G.token_seqs(maxlen))
@@ -52,8 +75,58 @@ def generate(rng, tier):
     return cases
 
 
-def _same(b1, b2, shift):
-    return SC.block_content(b1) == SC.block_content(b2) and b1.raw == b2.raw and b1.start_line + shift == b2.start_line
+def _view(b, depth=0):
+    """Everything public on a block, start lines kept apart so that they can be shifted: (content, lines)."""
+    cn = type(b).__name__
+    if b is None or depth > 4:
+        return [cn], []
+    c, ln = [cn, b.raw], [b.start_line]
+    if cn == "Entry":
+        c += [b.entry_type, b.key, [[type(f).__name__, f.key, f.value] for f in b.fields]]
+        ln += [f.start_line for f in b.fields]
+    elif cn == "String":
+        c += [b.key, b.value]
+    elif cn == "Preamble":
+        c += [b.value]
+    elif cn in ("ExplicitComment", "ImplicitComment"):
+        c += [b.comment]
+    elif hasattr(b, "ignore_error_block"):
+        err = b.error
+        c.append(type(err).__name__)
+        if cn in ("DuplicateFieldKeyBlock", "DuplicateBlockKeyBlock"):
+            c.append(str(err))                       # these messages name keys only, no positions
+        if cn == "DuplicateFieldKeyBlock":
+            dk = b.duplicate_keys
+            c += [type(dk).__name__, sorted(dk, key=repr)]
+        if cn == "DuplicateBlockKeyBlock":
+            c.append(b.key)
+            pc, pl = _view(b.previous_block, depth + 1)
+            c.append(pc)
+            ln.append(pl)
+        ic, il = _view(b.ignore_error_block, depth + 1)
+        c.append(ic)
+        ln.append(il)
+    md = getattr(b, "parser_metadata", None)
+    c.append(sorted(md) if isinstance(md, dict) else None)
+    return c, ln
+
+
+def _views(lib):
+    return [_view(b) for b in lib.blocks]
+
+
+def _shifted(ln, shift):
+    return [(_shifted(x, shift) if isinstance(x, list) else (x + shift if isinstance(x, int) else x)) for x in ln]
+
+
+def _same(v1, v2, shift):
+    """v1: block of the document parsed alone, v2: block of the combined parse, shift lines further down."""
+    if v1[0] != v2[0]:
+        i = next((k for k in range(min(len(v1[0]), len(v2[0]))) if v1[0][k] != v2[0][k]), min(len(v1[0]), len(v2[0])))
+        return "alone %r, in context %r" % (v1[0][i:i + 1], v2[0][i:i + 1])
+    if _shifted(v1[1], shift) != v2[1]:
+        return "lines alone %r (+%d), in context %r" % (v1[1], shift, v2[1])
+    return ""
 
 
 def impl(case):
@@ -61,31 +134,37 @@ def impl(case):
     d1, x, d2 = inp["d1"], inp["x"], inp["d2"]
     text = d1 + x + "\n" + d2
     rec, r = SC.base_record(text)
+    # each parse is looked at as it is when it returns, before anything else is parsed
+    v = _views(r[1]) if r[0] != "exc" else None
     r1 = SC.split_impl(d1)
+    v1 = _views(r1[1]) if r1[0] != "exc" else None
     r2 = SC.split_impl(d2)
-    if r[0] == "exc" or r1[0] == "exc" or r2[0] == "exc":
+    v2 = _views(r2[1]) if r2[0] != "exc" else None
+    if v is None or v1 is None or v2 is None:
         rec["oracle"] = {"ok": False, "detail": "parse raised"}
         rec["nontrivial"] = True
         return rec
-    bs, b1, b2 = r[1].blocks, r1[1].blocks, r2[1].blocks
+    bs = r[1].blocks
     ok, detail = True, ""
-    if len(bs) < len(b1) + len(b2):
-        ok, detail = False, "%d blocks, but the neighbours alone have %d + %d" % (len(bs), len(b1), len(b2))
+    if len(v) < len(v1) + len(v2):
+        ok, detail = False, "%d blocks, but the neighbours alone have %d + %d" % (len(v), len(v1), len(v2))
     else:
-        for i, b in enumerate(b1):
-            if not _same(b, bs[i], 0):
-                ok, detail = False, "block %d of the well-formed prefix changed: %r" % (i, (bs[i].raw or "")[:50])
+        for i, w in enumerate(v1):
+            d = _same(w, v[i], 0)
+            if d:
+                ok, detail = False, "block %d of the well-formed prefix changed: %r: %s" % (i, (bs[i].raw or "")[:50], d)
                 break
         shift = (d1 + x + "\n").count("\n")
-        off = len(bs) - len(b2)
+        off = len(v) - len(v2)
         if ok:
-            for i, b in enumerate(b2):
-                if not _same(b, bs[off + i], shift):
-                    ok, detail = False, "block %d of the well-formed suffix not parsed as on its own: %s raw %r line %r" % (
-                        i, type(bs[off + i]).__name__, (bs[off + i].raw or "")[:50], bs[off + i].start_line)
+            for i, w in enumerate(v2):
+                d = _same(w, v[off + i], shift)
+                if d:
+                    ok, detail = False, "block %d of the well-formed suffix not parsed as on its own: %s raw %r line %r: %s" % (
+                        i, type(bs[off + i]).__name__, (bs[off + i].raw or "")[:50], bs[off + i].start_line, d)
                     break
-        if ok and x.strip() == "" and len(bs) != len(b1) + len(b2):
-            ok, detail = False, "concatenation of well-formed documents gives %d blocks instead of %d" % (len(bs), len(b1) + len(b2))
+        if ok and x.strip() == "" and len(v) != len(v1) + len(v2):
+            ok, detail = False, "concatenation of well-formed documents gives %d blocks instead of %d" % (len(v), len(v1) + len(v2))
     rec["oracle"] = {"ok": ok, "detail": detail}
     rec["nontrivial"] = x.strip() != ""
     rec["key"] = str(hash((d1, x, d2)))
